@@ -251,7 +251,11 @@ func svRun(in []byte) (interface{}, error) {
 				addrs = append(addrs, a)
 			}
 			node := &slot.SyncNode{Id: round, Source: addrs[0], Slaves: []string{addrs[1], addrs[2]}, Target: []string{"127.0.0.1:1"}, SlotLeftBoundary: 0, SlotRightBoundary: 100}
+			// every other syncer is one that has synced before: resume enabled, a run id and an offset known from its earlier life
 			ds := dbSync.VerifNewDbSyncer(node, false, "?", -1, 0, "ckpt", 4)
+			if round%2 == 1 {
+				ds = dbSync.VerifNewDbSyncer(node, true, "0123456789abcdef0123456789abcdef01234567", 4242, 0, "ckpt", 4)
+			}
 			master := 0
 			// each step is one restart of Sync(): its retry accounting, then the re-discovery.  Three restarts within the hour
 			// (the fourth would stop the tool), then a quiet period of two hours and two more restarts
